@@ -1,7 +1,7 @@
 (* Proofs/C13.v -- HTTP: complete requests get a well-formed 401, anything else silence. *)
 From Coq Require Import Lia.
 From MS Require Import Http Proto Spec.RefHttp Spec.HttpTbl Spec.EnvOk Spec.AppView Spec.C11http Spec.C13
-  Proofs.Tactics Proofs.SmackSeg Proofs.HttpLemmas Proofs.HttpFold Proofs.HttpGrammar Proofs.HttpParse.
+  Proofs.Tactics Proofs.Pending Proofs.SmackSeg Proofs.HttpLemmas Proofs.HttpFold Proofs.HttpGrammar Proofs.HttpParse.
 
 (* ---------- the facts of env_ok used here ---------- *)
 Lemma env_ok_http (E : env) : env_ok E = true ->
@@ -102,9 +102,8 @@ Section Resp.
                 Ok (ci, tc', if is_some (rl_request p) then Some (http_resp E clk) else None) /\
                 t_proto tc' = PROTO_HTTP.
   Proof.
-    intros Hb Hid. unfold proto_repl_tcp. unfold tcp_first_id in Hid.
-    cbn [t_proto tcb_new t_smack t_pstate]. change (PROTO_NONE =? PROTO_NONE) with true. cbv iota.
-    destruct (search_next (e_proto_tbl E) BASE_STATE p) as [[id st] n]. subst id.
+    intros Hb Hid. rewrite proto_repl_tcp_first. unfold tcp_first_id in Hid.
+    destruct (search_next (e_proto_tbl E) BASE_STATE p) as [[id st] n]. subst id. cbv zeta.
     cbn [id_of t_proto]. unfold dispatch. change (PROTO_HTTP =? PROTO_HTTP) with true. cbv iota.
     cbn [t_pstate t_smack t_proto].
     destruct (repl_language clk p Hb) as (h' & ->). cbn [bind].
